@@ -41,8 +41,8 @@ def cases(tier, seed):
 def special_cases(tier, seed):
     """(a) single RPCs far larger than the send-buffer capacity (17 MiB with capacity 0 / 1 KB, 40 MB with the default 16 MB):
     one physical MPI message each, which must fit the posted receive slots; (b) round-robin (cyclic) placement of ranks on
-    nodes, where node members are not contiguous rank ranges.  Both are judged by the delivery / barrier oracles only (the
-    trace acceptor needs the payload bytes in the log and the block-placement router model)."""
+    nodes, where node members are not contiguous rank ranges (trace acceptor with RouterP's cyclic placement).  The huge
+    messages are judged by the delivery / barrier oracles only (the trace acceptor needs the payload bytes in the log)."""
     rng = T.Rng(seed * 7919 + 3)
     out = []
     params = {"maxfan": 1, "hprog": 0, "hcb": 0, "hbc": 0}
@@ -71,8 +71,8 @@ def special_cases(tier, seed):
 
 def extra(local, sc, cfg, sr, hev, wire, out):
     from props import acceptors
-    if getattr(cfg, "placement", None) or any(op[2] == "async" and int(op[5]) > (1 << 20) for op in sc.ops):
-        return      # oracle-only families (see special_cases)
+    if any(op[2] == "async" and int(op[5]) > (1 << 20) for op in sc.ops):
+        return      # oracle-only family (see special_cases): the payload bytes are not logged
     acceptors.deliver(local, sc, cfg, hev, wire)
 
 
@@ -89,7 +89,9 @@ def run(tier, seed, model_ok=True):
         res.corr_failures.append({"relation": "harness builds against /repo", "what": err[-800:], "case": None})
         return res
     K.run_cases(res, binary, cases(tier, seed), WANT, extra=extra if model_ok else None, log_bytes=-1)
-    K.run_cases(res, binary, special_cases(tier, seed), WANT, extra=None, log_bytes=0, nontrivial=lambda out: out.get("asyncs", 0) > 0)
+    sp = special_cases(tier, seed)
+    K.run_cases(res, binary, [c for c in sp if not getattr(c[1], "placement", None)], WANT, extra=None, log_bytes=0, nontrivial=lambda out: out.get("asyncs", 0) > 0)
+    K.run_cases(res, binary, [c for c in sp if getattr(c[1], "placement", None)], WANT, extra=extra if model_ok else None, log_bytes=-1)
     if res.oracle_failures:
         res.oracle_failures[0] = K.shrink(binary, res.oracle_failures[0], WANT, log_bytes=-1)
     return res
